@@ -123,10 +123,13 @@ def dropTrailingInf (D : List (α × Option α)) : Except Err (List (α × Optio
   | some (_, some _) => .ok D
 
 /-- all remaining deaths must be finite (else: outside the model) -/
-def finiteBars (D : List (α × Option α)) : Except Err (List (α × α)) :=
-  D.mapM fun p => match p.2 with
-    | some d => .ok (p.1, d)
-    | none => .error .nonFinite
+def finiteBars : List (α × Option α) → Except Err (List (α × α))
+  | [] => .ok []
+  | (_, none) :: _ => .error .nonFinite
+  | (b, some d) :: t =>
+    match finiteBars t with
+    | .ok r => .ok ((b, d) :: r)
+    | .error e => .error e
 
 /-- `PersLandscapeExact(dgms=dgms, hom_deg=h)`: the bars the sweep runs on -/
 def selectBars (dgms : List (List (α × Option α))) (homDeg : Int) : Except Err (List (α × α)) :=
@@ -134,16 +137,19 @@ def selectBars (dgms : List (List (α × Option α))) (homDeg : Int) : Except Er
   else if dgms.isEmpty then .error .valueError
   else match dgms[homDeg.toNat]? with
     | none => .error .indexError
-    | some D => do
-      let D' ← dropTrailingInf D
-      finiteBars D'
+    | some D =>
+      match dropTrailingInf D with
+      | .error e => .error e
+      | .ok D' => finiteBars D'
 
 /-- the whole constructor: `PersLandscapeExact(dgms, hom_deg).critical_pairs` plus the firing count -/
-def exact (dgms : List (List (α × Option α))) (homDeg : Int) : Except Err (Out α) := do
-  let bars ← selectBars dgms homDeg
-  match sweep bars with
-  | some o => .ok o
-  | none => .error .fuel
+def exact (dgms : List (List (α × Option α))) (homDeg : Int) : Except Err (Out α) :=
+  match selectBars dgms homDeg with
+  | .error e => .error e
+  | .ok bars =>
+    match sweep bars with
+    | some o => .ok o
+    | none => .error .fuel
 
 /-- the sweep with the repeated-bar shortcut removed (every bar gets its own pass); used only to
     state the stretch goal `sweep_correct_of_not_fired` and by the driver for diagnostics -/
